@@ -676,6 +676,11 @@ func (r *runner) replay(t *testing.T, path string) {
 		fmt.Printf("VIOLATION property=%s replay=%s\n  reproduced exactly (history hash %s)\n", rf.Property, path, gotHash)
 		for _, v := range out.Violations {
 			fmt.Printf("  kind=%s %s\n", v.Kind, v.Msg)
+			if what, ok := r.known[v.Sig]; ok && v.Sig != "" {
+				fmt.Printf("  (listed in known_findings.json under signature %s: %s)\n", v.Sig, what)
+			} else if v.Sig != "" {
+				fmt.Printf("  (signature %s)\n", v.Sig)
+			}
 		}
 		t.Fail()
 	case reproduced:
